@@ -12,6 +12,7 @@ import (
 	"sort"
 	"strings"
 	"sync"
+	"sync/atomic"
 	"time"
 
 	"verif/internal/core"
@@ -69,6 +70,13 @@ func c04Gen(r *core.Run, idx int, kind string, n int) *c04History {
 		h.Replies = append(h.Replies, append([]string(nil), ids...))
 	case "relist-until-done": // App Engine style: handled by the fake proxy's Relist mode
 		h.Replies = nil
+	case "backend-drops-connection":
+		// every ID is listed twice; the backend reads the (body-less POST) request and drops the connection
+		h.Replies = [][]string{append([]string(nil), ids...), nil, append([]string(nil), ids...)}
+		h.SlowPct = 0
+	case "list-faults-while-relisting":
+		h.Replies = nil // App Engine style re-listing with failing list calls in between
+		h.SlowPct = 0
 	case "upload-fails-then-relisted", "fetch-fails-then-relisted":
 		// driven specially: list once, let every upload (or fetch) attempt fail at connection level, then re-list twice
 		h.Replies = nil
@@ -106,7 +114,7 @@ func c04Gen(r *core.Run, idx int, kind string, n int) *c04History {
 	return h
 }
 
-var c04Kinds = []string{"upload-fails-then-relisted", "fetch-fails-then-relisted", "repeat-same-reply", "dup-within-reply", "permutations", "overlapping-subsets", "relist-until-done", "relist-after-completion", "one-by-one-then-all"}
+var c04Kinds = []string{"backend-drops-connection", "list-faults-while-relisting", "upload-fails-then-relisted", "fetch-fails-then-relisted", "repeat-same-reply", "dup-within-reply", "permutations", "overlapping-subsets", "relist-until-done", "relist-after-completion", "one-by-one-then-all"}
 
 // C04 — each client request is forwarded at most once.
 func C04(r *core.Run) {
@@ -158,6 +166,25 @@ func c04PartA(r *core.Run, agentBin string, md *fakes.Metadata) {
 				return
 			}
 			defer backend.Srv.Close()
+			var dmu sync.Mutex
+			dropTok := map[string]bool{}
+			slowTok := map[string]bool{}
+			backend.Override = func(req *rawhttp.Message, conn net.Conn, br *bufio.Reader) (bool, bool) {
+				tok, _, _, ok := parseTokPath(req.Target)
+				if !ok {
+					return false, false
+				}
+				dmu.Lock()
+				drop, slow := dropTok[tok], slowTok[tok]
+				dmu.Unlock()
+				if drop {
+					return true, false // request fully read, connection closed without a single response byte
+				}
+				if slow {
+					time.Sleep(120 * time.Millisecond) // keep the request in flight across several list calls
+				}
+				return false, false
+			}
 			px, err := fakes.NewProxy()
 			if err != nil {
 				r.Broken(err.Error())
@@ -165,12 +192,18 @@ func c04PartA(r *core.Run, agentBin string, md *fakes.Metadata) {
 			}
 			defer px.Close()
 			px.ListWait = 50 * time.Millisecond
+			var listFaults int64
 			// scripted list replies
 			var smu sync.Mutex
 			var script [][]string
 			var waitFor []string
 			slow := map[string]bool{}
 			px.OnList = func(w http.ResponseWriter, req *http.Request) bool {
+				if atomic.LoadInt64(&listFaults) > 0 && px.Lists()%2 == 0 {
+					atomic.AddInt64(&listFaults, -1)
+					http.Error(w, "scripted list failure", 503)
+					return true
+				}
 				smu.Lock()
 				if len(script) == 0 {
 					smu.Unlock()
@@ -261,7 +294,13 @@ func c04PartA(r *core.Run, agentBin string, md *fakes.Metadata) {
 				// register requests
 				for i, id := range h.IDs {
 					raw := tokRequest("POST", id, 20, 0, "c04.example", tokBytes(id, "req", 64), nil)
-					if h.Shape == "relist-until-done" {
+					if h.Shape == "backend-drops-connection" {
+						raw = tokRequest([]string{"POST", "PUT", "DELETE"}[i%3], id, 20, 0, "c04.example", []byte{}, nil) // Content-Length: 0
+						dmu.Lock()
+						dropTok[id] = true
+						dmu.Unlock()
+					}
+					if h.Shape == "relist-until-done" || h.Shape == "list-faults-while-relisting" {
 						continue
 					}
 					px.Store(id, raw, "")
@@ -326,8 +365,16 @@ func c04PartA(r *core.Run, agentBin string, md *fakes.Metadata) {
 					r.Add("ids_listed_part_a", len(h.IDs))
 					continue
 				}
-				if h.Shape == "relist-until-done" {
+				if h.Shape == "relist-until-done" || h.Shape == "list-faults-while-relisting" {
 					px.Relist = true
+					if h.Shape == "list-faults-while-relisting" {
+						dmu.Lock()
+						for _, id := range h.IDs {
+							slowTok[id] = true
+						}
+						dmu.Unlock()
+						atomic.StoreInt64(&listFaults, 6)
+					}
 					for _, id := range h.IDs {
 						px.Enqueue(id, tokRequest("POST", id, 20, 0, "c04.example", tokBytes(id, "req", 64), nil), "")
 					}
@@ -366,9 +413,10 @@ func c04PartA(r *core.Run, agentBin string, md *fakes.Metadata) {
 					}
 					time.Sleep(10 * time.Millisecond)
 				}
-				if h.Shape == "relist-until-done" {
+				if h.Shape == "relist-until-done" || h.Shape == "list-faults-while-relisting" {
 					time.Sleep(150 * time.Millisecond)
 					px.Relist = false
+					atomic.StoreInt64(&listFaults, 0)
 				}
 				time.Sleep(120 * time.Millisecond)
 				// oracle
@@ -444,9 +492,9 @@ func c04PartB(r *core.Run, serverBin string) {
 			return
 		}
 		var mu sync.Mutex
-		listed := map[string]int{}        // ID -> times listed
-		idTok := map[string]string{}      // ID -> token found in the fetched request
-		pollerOf := map[string][]int{}    // ID -> pollers that received it
+		listed := map[string]int{}     // ID -> times listed
+		idTok := map[string]string{}   // ID -> token found in the fetched request
+		pollerOf := map[string][]int{} // ID -> pollers that received it
 		var batches []string
 		stop := make(chan struct{})
 		var pwg sync.WaitGroup
@@ -545,7 +593,7 @@ func c04PartB(r *core.Run, serverBin string) {
 				for i := 0; i < c.perClient; i++ {
 					tok := fmt.Sprintf("s%dB%dk%di%d", r.Seed, ci, k, i)
 					var w rawhttp.Builder
-					w.Line("GET /b/" + tok + " HTTP/1.1").Field("Host", "c04b.example").Field("X-Tok", tok).End()
+					w.Line("GET /b/"+tok+" HTTP/1.1").Field("Host", "c04b.example").Field("X-Tok", tok).End()
 					m, err := cl.Do(w.Bytes(), "GET")
 					mu.Lock()
 					if err == nil && m.Status == 200 && string(m.Body) == "resp-for-"+tok {
